@@ -25,6 +25,7 @@ func init() {
 		Assumptions: []string{"integer conversions are transparent for form comparison (frame numbers fit the narrower type)",
 			"the bootloader's map is sorted and non-overlapping (quantifier of C01)"},
 		Controls: []Control{
+			{Name: "bitmap scan resumes at a position that wraps round", File: "kernel/mm/pmm/bitmap_allocator.go", Old: "\t\tfor blockIndex, block := range alloc.pools[poolIndex].freeBitmap {", New: "\t\tfor scanned, blockIndex := 0, int(alloc.pools[poolIndex].freeCount)%len(alloc.pools[poolIndex].freeBitmap); scanned < len(alloc.pools[poolIndex].freeBitmap); scanned, blockIndex = scanned+1, (blockIndex+1)%len(alloc.pools[poolIndex].freeBitmap) {\n\t\t\tblock := alloc.pools[poolIndex].freeBitmap[blockIndex]", Expect: "C01.R4 alloc-scan-complete"},
 			{Name: "word scan starts at a remembered position", File: "kernel/mm/pmm/bitmap_allocator.go", Old: "\t\tfor blockIndex, block := range alloc.pools[poolIndex].freeBitmap {\n", New: "\t\tfor blockIndex := int(alloc.reservedPages >> 6); blockIndex < len(alloc.pools[poolIndex].freeBitmap); blockIndex++ {\n\t\t\tblock := alloc.pools[poolIndex].freeBitmap[blockIndex]\n", Expect: "C01.R4"},
 			{Name: "delete reserveKernelFrames call", File: "kernel/mm/pmm/bitmap_allocator.go", Old: "\talloc.reserveKernelFrames()\n\talloc.reserveEarlyAllocatorFrames()\n", New: "\talloc.reserveEarlyAllocatorFrames()\n", Expect: "C01.R1"},
 			{Name: "swap rounding in pass 2", File: "kernel/mm/pmm/bitmap_allocator.go",
@@ -81,6 +82,7 @@ func init() {
 		Assumptions: []string{"named exception C03.R4: reserveEarlyAllocatorFrames discards the error of the replayed AllocFrame calls: it repeats at most as many allocations as already succeeded from the same state (C02.R3)",
 			"crash-freedom in general and counts over histories are not decided"},
 		Controls: []Control{
+			{Name: "first pass skips regions the second pass fills", File: "kernel/mm/pmm/bitmap_allocator.go", Old: "\t\tif region.Type != multiboot.MemAvailable {\n\t\t\treturn true\n\t\t}\n\n\t\talloc.poolsHdr.Len++", New: "\t\tif region.Type != multiboot.MemAvailable || region.Length < uint64(mm.PageSize) {\n\t\t\treturn true\n\t\t}\n\n\t\talloc.poolsHdr.Len++", Expect: "C03.R1 pass-agreement"},
 			{Name: "re-remove the +1 in pass 2 (F1)", File: "kernel/mm/pmm/bitmap_allocator.go", Old: "bitmapBytes := ((uintptr(regionEndFrame-regionStartFrame+1) + 63) &^ 63) >> 3", New: "bitmapBytes := ((uintptr(regionEndFrame-regionStartFrame) + 63) &^ 63) >> 3", Expect: "C03.R1"},
 			{Name: "re-remove the +1 in pass 1 (F1)", File: "kernel/mm/pmm/bitmap_allocator.go", Old: "pageCount := uint32(regionEndFrame - regionStartFrame + 1)", New: "pageCount := uint32(regionEndFrame - regionStartFrame)", Expect: "C03.R1"},
 			{Name: "drop the double-free test", File: "kernel/mm/pmm/bitmap_allocator.go", Old: "\tif alloc.pools[poolIndex].freeBitmap[block]&mask == 0 {\n\t\talloc.mutex.Release()\n\t\treturn errBitmapAllocDoubleFree\n\t}\n", New: "", Expect: "C03.R2"},
